@@ -65,4 +65,15 @@ CHECKS = {
         exhaustive_note="all 157 histories SELECT [x [y]] OPERATE over the 12-symbol alphabet on every run; thorough adds all 1728 x,y,z,OPERATE histories",
         assumptions=HARNESS_TRUST,
     ),
+    "C05": dict(
+        level="exploration",
+        rule=("scenario = configuration (tx sizes 249..2048, unsolicited on/off, retry limits) x one of: (a) every executing non-READ function sent, then repeated 1-3 times after {nothing, a new event, a time advance}, from idle / unsolicited-ready / unsolicited confirm wait; "
+              "(b1) READ answered by a 1..n fragment series, the READ repeated 1-3 times while fragment k awaits its confirm; (b2) data unsolicited response retried after confirm timeouts while events arrive or solicited traffic uses the other buffer. "
+              "distinct = (part, function/request shape, session state, disturbance, fragment number, retry number) tuples"),
+        runs=[dict(check="c05", timeout_s=900)],
+        required=["repeat_not_executed", "repeat_echo_identical", "repeat_no_reply_ok", "series_echo_identical", "series_echo_identical_frag2plus", "unsol_retry_identical", "multi_fragment_series"],
+        thorough_scale=25.0,
+        abnormal_exit_is_violation=True,
+        assumptions=HARNESS_TRUST,
+    ),
 }
